@@ -438,7 +438,7 @@ def directed_snapshot(ctx, rng, grow=2):
     return c, v, note
 
 
-def directed_snapshot_removal(ctx, rng):
+def directed_snapshot_removal(ctx, rng, raising_waiter=False):
     """A member is cut off while another member is REMOVED (committed) and everybody else compacts: after the heal it
     learns the removal from a snapshot — the removed node must be gone from its member set."""
     c = Cluster(ctx, rng, 5)
@@ -449,6 +449,29 @@ def directed_snapshot_removal(ctx, rng):
         return c, [], "no leader"
     others = [i for i in sim.voters if i != L]
     victim, gone = others[0], others[1]
+    waiter_calls = []
+    if raising_waiter:
+        # the victim waits for a forwarded command of its own (it was told the position) whose callback RAISES; the
+        # snapshot that covers the position calls it in the middle of the install
+        sim.submit(victim, "fwd")
+        sim.tick(victim, 0.0)
+        while sim.deliver(victim, L):
+            pass
+        sim.tick(L, 0.0)
+        while True:
+            x = sim.deliver(L, victim)
+            if x is None or x.get("type") == "apply_command_response":
+                break
+        waiting = getattr(sim.objs[victim], "_SyncObj__commandsWaitingCommit")
+        for idx in list(waiting):
+            def mk(cb0):
+                def cb1(res, err):
+                    waiter_calls.append(err)
+                    cb0(res, err)
+                    raise RuntimeError("callback of the application failed")
+                return cb1
+            waiting[idx] = [(t, mk(cb0)) for (t, cb0) in waiting[idx]]
+        c.waiter_calls = waiter_calls
     for j in list(sim.objs):
         if j != victim:
             sim.disconnect(victim, j)
